@@ -2,6 +2,6 @@
 
 package json
 
-func verifEnter(p *parserState)                                                         {}
-func verifExit(p *parserState, q string, lraw, parsed, inspected, first int, qsat bool) {}
-func verifLvl(lvl int)                                                                  {}
+func verifEnter(p *parserState)                                                               {}
+func verifExit(p *parserState, q string, raw []byte, parsed, inspected, first int, qsat bool) {}
+func verifLvl(lvl int)                                                                        {}
